@@ -22,16 +22,17 @@ AluCause(r) ==
   ELSE IF r.v # r.w THEN "not-truncated" ELSE "wrong-value"
 AluSig(r) == [fam |-> "intalu", op |-> r.op, k |-> r.k, form |-> r.form, cause |-> AluCause(r)]
 
-(* ---- initorder: {id, nv, nf, deps, outcome, order}: order = the numbers printed by the variables'
-   initialisers, in order, then 0 printed by main.  The build error's wording is not judged, only its class. *)
+(* ---- initorder: {id, nv, nf, rev, deps, outcome, order}: order = the numbers printed by the variables'
+   initialisers, in order, then 0 printed by main; deps[n] lists the dependencies of n in the order in which the
+   source text mentions them (the reference only looks at the set).  The build error's wording is not judged, only its class. *)
 InitOk(r) == IF RefCyclic(r.deps, r.nv) THEN r.outcome = "builderror"
              ELSE r.outcome = "ok" /\ r.order = Append(RefOrder(r.deps, r.nv), 0)
 InitCause(r) ==
   IF r.outcome \notin {"ok", "builderror"} THEN r.outcome
   ELSE IF RefCyclic(r.deps, r.nv) THEN "missed-cycle"
   ELSE IF r.outcome = "builderror"
-       THEN (IF ImplCyclic(r.deps, r.nv) THEN "recursion-reported-as-cycle" ELSE "false-cycle")
-  ELSE IF r.order = Append(ImplOrder(r.deps, r.nv), 0) THEN "function-dependencies-not-followed" ELSE "wrong-order"
+       THEN (IF LegacyCyclic(r.deps, r.nv) THEN "recursion-reported-as-cycle" ELSE "false-cycle")
+  ELSE IF r.order = Append(LegacyOrder(r.deps, r.nv), 0) THEN "function-dependencies-not-followed" ELSE "wrong-order"
 InitSig(r) == [fam |-> "initorder", cause |-> InitCause(r), nv |-> r.nv, nf |-> r.nf]
 
 (* ---- conv: {id, op, k, v, a, outcome, out}: out = the numbers printed (bytes, runes, or index/rune pairs) *)
